@@ -319,17 +319,15 @@ void Var::operator=(const Var& v)
 		memcpy(_s->data(), v._s->data(), v._s->length());
 		return;
 	}
-	if(_type == ARRAY && v._type == ARRAY) {
-		(*_a) = (*v._a);
-		return;
-	}
-	if(_type == OBJ && v._type == OBJ) {
-		(*_o) = (*v._o);
-		return;
-	}
-	
 	if(!isPod())
+	{
+		// v may be an element or property of this value: take a reference to it before releasing ours
+		Var t(v);
 		free();
+		memcpy(this, &t, sizeof(t));
+		t._type = NONE;
+		return;
+	}
 	memcpy(this, &v, sizeof(v));
 	switch(_type)
 	{
